@@ -383,7 +383,7 @@ def plan(tier):
     sweep = [{"kind": "sweep", "part": i} for i in range(SWEEP_PARTS)] + [{"kind": "prefix", "part": i, "parts": 8} for i in range(8)]
     if tier == "quick":
         return sweep + [{"n": 1200, "depth": 3}] * 16
-    return sweep + [{"n": 40000, "depth": 3}] * 40 + [{"n": 8000, "depth": 5}] * 8
+    return sweep + [{"n": 5000, "depth": 3}] * 40 + [{"n": 1500, "depth": 5}] * 8
 
 
 def sweep(part, res, only_bucket=None):
